@@ -1083,7 +1083,7 @@ class RTCPeerConnection(AsyncIOEventEmitter):
                 await iceTransport.start(self.__remoteIce[transceiver])
                 if dtlsTransport.state == "new":
                     await dtlsTransport.start(self.__remoteDtls[transceiver])
-                if dtlsTransport.state == "connected":
+                if dtlsTransport.state == "connected" and not self.__isClosed:
                     if transceiver.currentDirection in ["sendonly", "sendrecv"]:
                         await transceiver.sender.send(self.__localRtp(transceiver))
                     if transceiver.currentDirection in ["recvonly", "sendrecv"]:
@@ -1100,7 +1100,7 @@ class RTCPeerConnection(AsyncIOEventEmitter):
                 await iceTransport.start(self.__remoteIce[self.__sctp])
                 if dtlsTransport.state == "new":
                     await dtlsTransport.start(self.__remoteDtls[self.__sctp])
-                if dtlsTransport.state == "connected":
+                if dtlsTransport.state == "connected" and not self.__isClosed:
                     await self.__sctp.start(
                         self.__sctpRemoteCaps, self.__sctpRemotePort
                     )
